@@ -114,6 +114,10 @@ func modRender(tc *modCase, oneLine bool) *scRender {
 					emit(tv(it.X), ".", mo, "(1)")
 				case "mcall":
 					emit(tv(it.X), ":", mo, "(1)")
+				case "self":
+					emit("function ", tv(it.X), ":zz(p) return self.", mo, " end")
+				case "selfnest":
+					emit("function ", tv(it.X), ":zz(p) return function() return self.", mo, " end end")
 				}
 			case "ret":
 				emit("return ", tv(it.X))
